@@ -169,6 +169,8 @@ def worker_gate(ctx: Ctx):
         it = lp.iter
         itn = [n for n in g.nodes_containing(it) if g.node(n).kind == 'iter_eval']
         full = expand_locals(g, rd, it, itn[0] if itn else g.primary(lp))
+        while isinstance(full, ast.Call) and dotted(full.func) in ('list', 'tuple', 'iter') and len(full.args) == 1 and not full.keywords:
+            full = full.args[0]
         coll, n = None, None
         if isinstance(full, ast.Subscript) and isinstance(full.slice, ast.Slice) and full.slice.lower is None \
                 and full.slice.step is None and full.slice.upper is not None:
